@@ -343,6 +343,13 @@ func main() {
 		ev.TExit = now()
 		logEvent(plan.Dir, ev)
 		die(rule.Term)
+	case "burst":
+		// a child that buffers everything and writes it in one go when it is done (stdio buffering up to the end is
+		// legal for every one of these commands)
+		data, _ := io.ReadAll(pr)
+		ev.RealBytes = int64(len(data))
+		write(data)
+		ev.Delivered = fmt.Sprintf("burst of %d bytes", len(data))
 	case "delay":
 		chunk := rule.Chunk
 		if chunk <= 0 {
